@@ -97,6 +97,10 @@ def check_C05(tier, seed):
     run_workspace(out, "C05", tier)
     from .checks_traces import run_traces
     run_traces(out, "C05", tier)
+    from .checks_ctor import run_ctor
+    run_ctor(out, "C05", tier)      # whole-array ndarray assignment: every wrong shape (permuted, other rank with equal size, broadcastable)
+    from .checks_lifecycle import run_lifecycle_traces
+    run_lifecycle_traces(out, "C05", tier)
     from .checks_system import run_workflow
     run_workflow(out, "C05", tier)
     out.assumptions += [
